@@ -776,6 +776,7 @@ class ModelsWorld(World):
     # -- files ------------------------------------------------------------------------------------
     def _run_io(self, thunk, plan):
         self.fs.begin_step(plan)
+        status = "crashed"
         try:
             try:
                 r = thunk()
@@ -790,7 +791,8 @@ class ModelsWorld(World):
                 r, status = e, "raised"
         finally:
             self._last_counts = dict(self.fs.counts)
-            fired = self.fs.end_step()
+            # only a crash kills the handles of the step; what a merely failed save or load left open stays real
+            fired = self.fs.end_step(crashed=(status == "crashed"))
         for k in fired:
             self.faults_fired[k] += 1
         return status, r, fired
